@@ -894,7 +894,11 @@ def _whole_stores_fn(rec, adts):
                     ol = _operand_local(o)
                     if ol is None:
                         if isinstance(o, dict) and ("cp" in o or "mv" in o):
-                            ok = False
+                            # a field of a single-assignment temporary (`..Default::default()` is read field by field)
+                            pl_ = o.get("cp") or o.get("mv")
+                            nd_ = len(defs.get(pl_["l"], []))
+                            if "*" in (pl_.get("p") or []) or not ((pl_["l"] <= argc and nd_ == 0) or (pl_["l"] > argc and nd_ == 1)):
+                                ok = False
                         continue
                     nd = len(defs.get(ol, []))
                     if not ((ol <= argc and nd == 0) or (ol > argc and nd == 1)):
